@@ -61,18 +61,21 @@ func checkPositions(res *Result, src []byte) {
 					return fmt.Sprintf("FAIL position %d outside the source (%d bytes)", p, len(src))
 				}
 			}
-			log.Reset()
-			_, _, err := bcl.Execute(prog)
-			if err != nil {
-				texts = append(texts, err.Error())
-			}
-			texts = append(texts, log.String())
-			// the same program executed again reports the same locations
-			first := log.String()
-			log.Reset()
-			_, _, err2 := bcl.Execute(prog)
-			if log.String() != first || fmt.Sprint(err2) != fmt.Sprint(err) {
-				return fmt.Sprintf("FAIL second execution reports %q / %v, the first %q / %v", log.String(), err2, first, err)
+			// (a damaged program that may repeat a string beyond 2^20 bytes is not executed)
+			if !domainExcluded(src) {
+				log.Reset()
+				_, _, err := bcl.Execute(prog)
+				if err != nil {
+					texts = append(texts, err.Error())
+				}
+				texts = append(texts, log.String())
+				// the same program executed again reports the same locations
+				first := log.String()
+				log.Reset()
+				_, _, err2 := bcl.Execute(prog)
+				if log.String() != first || fmt.Sprint(err2) != fmt.Sprint(err) {
+					return fmt.Sprintf("FAIL second execution reports %q / %v, the first %q / %v", log.String(), err2, first, err)
+				}
 			}
 		}
 		n := 0
@@ -154,7 +157,7 @@ func streamPositions(ctx *Ctx) *Result {
 			src = strings.Repeat("\r\n", 300) + src
 		}
 		checkPositions(res, []byte(src))
-		diffParseRun(res, d, []byte(src), false)
+		diffParseRunTok(res, d, []byte(src), false)
 		if i < 2 {
 			res.Sample(trunc(src, 300))
 		}
@@ -327,6 +330,10 @@ func streamLimits(ctx *Ctx) *Result {
 			if err == nil && p == nil {
 				return "FAIL Parse returned nil, nil"
 			}
+			if err == nil && domainExcluded(src) {
+				// may repeat a string beyond 2^20 bytes: outside the property, parsed only
+				return "result"
+			}
 			res1, b1, err1 := bcl.Interpret(src, o...)
 			cf := &chunkFile{chunks: randomPartition(rand.New(rand.NewSource(int64(len(src)))), append([]byte(nil), src...), 5, true)}
 			res2, b2, err2 := bcl.InterpretFile(cf, o...)
@@ -355,7 +362,7 @@ func streamLimits(ctx *Ctx) *Result {
 		}
 		res.Count("outcome."+v, 1)
 		if model && len(src) < 40000 {
-			diffParseRun(res, d, src, false)
+			diffParseRunTok(res, d, src, false)
 		}
 	}
 	ladder := limitLadder()
@@ -497,7 +504,16 @@ func streamMutants(ctx *Ctx) *Result {
 	oracle := func(src []byte) (accepted bool, ok bool) {
 		v := guarded(opTimeout, func() string {
 			var out, log capBuf
-			res1, b1, err := bcl.Interpret(src, bcl.OptOutput(&out), bcl.OptLogger(&log))
+			var res1 []bcl.Block
+			var b1 bcl.Binding
+			var err error
+			if _, perr := bcl.Parse(src, "input", bcl.OptOutput(io.Discard), bcl.OptLogger(io.Discard)); perr == nil && domainExcluded(src) {
+				// accepted, but may repeat a string beyond 2^20 bytes (outside the properties'
+				// domain): parsed for its diagnostics, not executed
+				_, err = bcl.Parse(src, "input", bcl.OptOutput(&out), bcl.OptLogger(&log))
+			} else {
+				res1, b1, err = bcl.Interpret(src, bcl.OptOutput(&out), bcl.OptLogger(&log))
+			}
 			rejected := err != nil && err.Error() == "combined errors from parse"
 			lines := strings.Split(strings.TrimSuffix(log.String(), "\n"), "\n")
 			ndiag := 0
@@ -545,7 +561,7 @@ func streamMutants(ctx *Ctx) *Result {
 		if !ok {
 			return
 		}
-		diffParseRun(res, d, base, false)
+		diffParseRunTok(res, d, base, false)
 		res.Count("sentence", 1)
 		try := func(kind string, mt []string) {
 			src := []byte(lay.Join(mt))
@@ -553,7 +569,7 @@ func streamMutants(ctx *Ctx) *Result {
 			if !ok {
 				return
 			}
-			diffParseRun(res, d, src, false)
+			diffParseRunTok(res, d, src, false)
 			res.Count("mutant."+kind, 1)
 			if acc {
 				res.Count("mutant.accepted", 1)
